@@ -242,4 +242,4 @@ def accumulators(chk, facts, rule):
         chk.ob(rule, key, r["monotone"], f"{r['fn']['qual']}: `{r['name']}` is a {kind} accumulator ({', '.join(op for op, _ in r['updates'])})" if r["monotone"] else
                f"{r['fn']['qual']}: `{r['name']}` starts as {str(r['init']).lower()} but is overwritten in the loop ({r['updates']}): the result depends on the last element only, "
                "so a type whose earlier generic argument / member is not accepted is accepted all the same", facts.loc_of(r["fn"]))
-    chk.floor(rule, len(rows), 2, "boolean accumulators in the assignability functions")
+    chk.floor(rule, len(rows), 1, "boolean accumulators in the assignability functions")
